@@ -57,7 +57,7 @@ type lsStep struct {
 }
 
 type lsMut struct {
-	Op      string // add | del | move | update | cfg | shard
+	Op      string // add | del | move | update | cfg | shard | stray
 	Root    int
 	Path    string
 	Kind    string `json:",omitempty"` // add: nonbare | bare | gitfile | fake
@@ -71,11 +71,25 @@ type lsMut struct {
 	Outside  bool   `json:",omitempty"`
 	RealHead bool   `json:",omitempty"` // version = HEAD of the repository at Root/Path if there is one
 	Meta     bool   `json:",omitempty"` // also write a .meta sidecar
+	// stray (Path "."): something that is not a finished shard is put into the
+	// index directory. Kind: tmp (<shard>.<digits>.tmp, the partly written
+	// shard of a killed or concurrently running indexer) | metatmp
+	// (<shard>.meta.<digits>.tmp) | file (unrelated file) | dir (sub-directory
+	// with shard-like and *.tmp files inside). Content selects the shard the
+	// temporary file belongs to (mod the shards present) / the name from
+	// lsStrayFiles / lsStrayDirs.
 }
 
 type lsArg struct {
 	Root int
 	Sub  string `json:",omitempty"` // root argument is <root>/<Sub> (overlapping roots, renames without moving)
+	// Link != "": the argument is not the directory's own path but reaches it
+	// through a symbolic link named Link. Via "" = the link points at the
+	// directory itself (an alias); Via "parent" = the link points at the
+	// directory's parent and the argument is <link>/<base name of the directory>
+	// (a link in a leading path component).
+	Link string `json:",omitempty"`
+	Via  string `json:",omitempty"`
 }
 
 // lsSel is one remove selector. "name"/"source" are literal; the "nth-*"
@@ -124,6 +138,15 @@ var lsPathPool = []string{
 }
 
 var lsSubPool = []string{"team", "deep/a", "team/x", "x", "deep"}
+
+// Names of the symbolic links root arguments are given through. They differ
+// from the linked directory's name (an alias), or equal a root's / a
+// repository's name, or end in ".git".
+var lsLinkPool = []string{"alias", "mirror.git", "alpha", "x", "team"}
+
+// Unrelated files / sub-directories found in an index directory.
+var lsStrayFiles = []string{"notes.txt", "README", ".DS_Store", "old_v16.00000.zoekt.bak", "compound-1234.zoekt.tmp", "nohup.out"}
+var lsStrayDirs = []string{"scratch", "old.zoekt.d", ".trash"}
 
 // ---------------------------------------------------------------------------
 // Generator.
@@ -359,13 +382,11 @@ func lsGenCmd(g kit.G, m *lsGenModel, def []lsArg, step, nsteps int) lsCmd {
 	} else {
 		cmd.Roots = lsGenRoots(g, "alt")
 	}
-	if g.Bool(16, "subarg") {
-		i := g.Int(0, len(cmd.Roots)-1, "subarg-i")
-		cmd.Roots = append([]lsArg(nil), cmd.Roots...)
-		// a directory that (probably) exists: an ancestor of, or the directory of, a repository of that root
+	// a directory that (probably) exists: an ancestor of, or the directory of, a repository of that root
+	subsOf := func(root int) []string {
 		var subs []string
 		for _, r := range m.repos {
-			if r.Root == cmd.Roots[i].Root && r.Path != "." {
+			if r.Root == root && r.Path != "." {
 				subs = append(subs, r.Path)
 				for _, a := range lsAncestors(r.Path) {
 					if a != "." {
@@ -377,12 +398,44 @@ func lsGenCmd(g kit.G, m *lsGenModel, def []lsArg, step, nsteps int) lsCmd {
 		if len(subs) == 0 {
 			subs = lsSubPool
 		}
-		sub := kit.Pick(g, subs, "sub")
+		return subs
+	}
+	if g.Bool(16, "subarg") {
+		i := g.Int(0, len(cmd.Roots)-1, "subarg-i")
+		cmd.Roots = append([]lsArg(nil), cmd.Roots...)
+		sub := kit.Pick(g, subsOf(cmd.Roots[i].Root), "sub")
 		if g.Bool(40, "subarg-extra") {
 			// overlapping: keep the root and add a sub-directory of it
 			cmd.Roots = append(cmd.Roots, lsArg{Root: cmd.Roots[i].Root, Sub: sub})
 		} else {
 			cmd.Roots[i].Sub = sub
+		}
+	}
+	if g.Bool(15, "linkarg") {
+		// a root argument given through a symbolic link
+		i := kit.Pick(g, []int{0, 0, len(cmd.Roots) - 1, g.Int(0, len(cmd.Roots)-1, "linkarg-i")}, "linkarg-which")
+		cmd.Roots = append([]lsArg(nil), cmd.Roots...)
+		a := cmd.Roots[i]
+		a.Link = kit.Pick(g, lsLinkPool, "link")
+		if g.Bool(25, "link-via-parent") {
+			a.Via = "parent"
+		}
+		switch kit.Pick(g, []string{"replace", "replace", "replace", "alias-extra", "sub-extra", "sub-extra"}, "linkmode") {
+		case "replace":
+			// the directory is named only through the link
+			cmd.Roots[i] = a
+		case "alias-extra":
+			// the directory by its own path and once more through the link
+			cmd.Roots = append(cmd.Roots, a)
+		default:
+			// a root and a link into a sub-directory of it (or to a repository of it):
+			// overlapping only after the link is resolved
+			a.Sub = kit.Pick(g, subsOf(a.Root), "link-sub")
+			if g.Bool(50, "link-first") {
+				cmd.Roots = append([]lsArg{a}, cmd.Roots...)
+			} else {
+				cmd.Roots = append(cmd.Roots, a)
+			}
 		}
 	}
 	return cmd
@@ -414,6 +467,7 @@ func lsGen(rt *rapid.T) lsCase {
 		c.ShardLimit = kit.Pick(g, []int{1500, 2200, 3000}, "shardlimit")
 		bigPct = 65
 	}
+	strays := g.Bool(40, "strays")
 	m := &lsGenModel{}
 	nsteps := g.Int(2, 6, "nsteps")
 	for s := 0; s < nsteps; s++ {
@@ -427,6 +481,17 @@ func lsGen(rt *rapid.T) lsCase {
 		}
 		for j := 0; j < nm; j++ {
 			st.Muts = append(st.Muts, lsGenMut(g, m, defIdx, s > 0, bigPct))
+		}
+		if strays && g.Bool(55, "stray-step") {
+			// leftovers in the index directory: temporary files of a killed or
+			// concurrently running indexer, unrelated files, sub-directories
+			for j, n := 0, kit.Pick(g, []int{1, 1, 2, 3}, "nstray"); j < n; j++ {
+				st.Muts = append(st.Muts, lsMut{
+					Op: "stray", Path: ".",
+					Kind:    kit.Pick(g, []string{"tmp", "tmp", "tmp", "metatmp", "metatmp", "file", "file", "dir"}, "stray-kind"),
+					Content: g.Int(0, 11, "stray-which"),
+				})
+			}
 		}
 		st.Cmd = lsGenCmd(g, m, def, s, nsteps)
 		st.Apply = g.Bool(72, "apply")
@@ -656,6 +721,8 @@ type lsWorld struct {
 	gitfileSeen    bool
 	foreignShards  int
 	renamedPending bool
+	strayTmp       bool // a *.tmp leftover was put into the index directory
+	strayOther     bool // an unrelated file / sub-directory was put into the index directory
 }
 
 func lsNewWorld(c *lsCase) (*lsWorld, error) {
@@ -1041,6 +1108,64 @@ func (w *lsWorld) apply(m lsMut) (ok bool, err error) {
 		}
 		w.foreignShards++
 		return true, nil
+	case "stray":
+		if m.Content < 0 {
+			return false, nil
+		}
+		if err := os.MkdirAll(w.index, 0o755); err != nil {
+			return false, err
+		}
+		entries, err := os.ReadDir(w.index)
+		if err != nil {
+			return false, err
+		}
+		var shards []string
+		for _, e := range entries {
+			if !e.IsDir() && strings.HasSuffix(e.Name(), ".zoekt") {
+				shards = append(shards, e.Name())
+			}
+		}
+		sort.Strings(shards)
+		// the shard the temporary file belongs to: one that is there, else the
+		// first shard of a repository that is not indexed yet
+		shard, partial := "alpha_v16.00000.zoekt", []byte("partly written shard\n")
+		if len(shards) > 0 {
+			shard = shards[m.Content%len(shards)]
+			if b, err := os.ReadFile(filepath.Join(w.index, shard)); err == nil {
+				partial = b[:len(b)/2]
+			}
+		}
+		// os.CreateTemp puts a decimal number in place of the "*"
+		digits := fmt.Sprint(1000003*(m.Content+1) + 97*len(entries))
+		write := func(rel string, data []byte) (bool, error) {
+			p := filepath.Join(w.index, filepath.FromSlash(rel))
+			if _, err := os.Lstat(p); err == nil {
+				return false, nil
+			}
+			if err := os.MkdirAll(filepath.Dir(p), 0o755); err != nil {
+				return false, err
+			}
+			return true, os.WriteFile(p, data, 0o600)
+		}
+		var ok bool
+		switch m.Kind {
+		case "tmp":
+			ok, err = write(shard+"."+digits+".tmp", partial)
+			w.strayTmp = w.strayTmp || ok
+		case "metatmp":
+			ok, err = write(shard+".meta."+digits+".tmp", []byte(`{"Name":"half written`))
+			w.strayTmp = w.strayTmp || ok
+		case "file":
+			ok, err = write(lsStrayFiles[m.Content%len(lsStrayFiles)], []byte("not a shard\n"))
+			w.strayOther = w.strayOther || ok
+		case "dir":
+			d := lsStrayDirs[m.Content%len(lsStrayDirs)]
+			if ok, err = write(d+"/inner_v16.00000.zoekt", []byte("not a shard either\n")); ok && err == nil {
+				_, err = write(d+"/inner_v16.00000.zoekt."+digits+".tmp", partial)
+			}
+			w.strayOther = w.strayOther || ok
+		}
+		return ok, err
 	}
 	return false, nil
 }
@@ -1072,18 +1197,25 @@ type lsExpect struct {
 }
 
 type lsResolvedArg struct {
-	Root int
-	Sub  string // "" = the root itself
-	Abs  string
+	Root   int
+	Sub    string // "" = the root itself
+	Abs    string // the directory (a path without symbolic links)
+	Arg    string // the command-line word: Abs, or a path through a symbolic link
+	Linked bool
 }
+
+var lsLinkNameRe = regexp.MustCompile(`^[A-Za-z0-9_][A-Za-z0-9_.-]*$`)
 
 // resolveArgs turns the case's root arguments into paths. A Sub is only used
 // when the layout has something at or under it (so that the directory
-// exists); otherwise the argument falls back to the root itself.
+// exists); otherwise the argument falls back to the root itself. For an
+// argument with a Link the symbolic link <base>/links/<position>/<Link> is
+// (re)created and the command-line word goes through it; Abs stays the
+// directory's real path, which is what the discovery model works on.
 func (w *lsWorld) resolveArgs(args []lsArg) []lsResolvedArg {
 	var out []lsResolvedArg
 	seen := map[string]bool{}
-	for _, a := range args {
+	for i, a := range args {
 		if a.Root < 0 || a.Root >= len(w.roots) {
 			continue
 		}
@@ -1092,10 +1224,32 @@ func (w *lsWorld) resolveArgs(args []lsArg) []lsResolvedArg {
 			ra.Sub = a.Sub
 			ra.Abs = w.abs(a.Root, a.Sub)
 		}
-		if seen[ra.Abs] {
-			continue // the same directory twice is not an interesting root set
+		ra.Arg = ra.Abs
+		if a.Link != "" && lsLinkNameRe.MatchString(a.Link) {
+			dir := filepath.Join(w.base, "links", fmt.Sprint(i))
+			link := filepath.Join(dir, a.Link)
+			target := ra.Abs
+			ra.Arg = link
+			if a.Via == "parent" {
+				target = filepath.Dir(ra.Abs)
+				ra.Arg = filepath.Join(link, filepath.Base(ra.Abs))
+			}
+			err := os.RemoveAll(dir)
+			if err == nil {
+				err = os.MkdirAll(dir, 0o755)
+			}
+			if err == nil {
+				err = os.Symlink(target, link)
+			}
+			if err != nil {
+				panic(fmt.Sprintf("harness: cannot create symbolic link %s: %v", link, err))
+			}
+			ra.Linked = true
 		}
-		seen[ra.Abs] = true
+		if seen[ra.Arg] {
+			continue // the same command-line word twice is not an interesting root set
+		}
+		seen[ra.Arg] = true
 		out = append(out, ra)
 	}
 	return out
@@ -1211,7 +1365,7 @@ func (w *lsWorld) cmdArgs(c *lsCase, cmd lsCmd) (preview, force []string, ok boo
 		head = append(head, "-index", w.index, "-disable_ctags", "-submodules=false", "-shard_limit", fmt.Sprint(limit))
 		var tail []string
 		for _, a := range ras {
-			tail = append(tail, a.Abs)
+			tail = append(tail, a.Arg)
 		}
 		preview = append(append([]string{}, head...), tail...)
 		force = append(append(append([]string{}, head...), "-f"), tail...)
@@ -1541,6 +1695,8 @@ func (w *lsWorld) layoutLabels() []string {
 	add(w.rootLevelSeen, "layout:root-level")
 	add(w.gitfileSeen, "layout:gitfile")
 	add(w.foreignShards > 0, "prior:foreign-shard")
+	add(w.strayTmp, "prior:leftover-tmp-files")
+	add(w.strayOther, "prior:unrelated-files-or-directories")
 	add(w.movesApplied > 0, "history:moved")
 	return out
 }
